@@ -212,6 +212,65 @@ func renameBack(dir string, known, knownTypes map[string]bool, env []string) (ma
 			notes = append(notes, "renamed type "+cands[0]+" back to "+mt)
 		}
 	}
+	// fields of known struct types: a known unexported field that disappeared and exactly one new field of the same type
+	{
+		have := fieldsOf(pkg)
+		byType := map[string][]string{} // "Type" -> known field names
+		for k := range KnownFields {
+			i := strings.Index(k, ".")
+			byType[k[:i]] = append(byType[k[:i]], k[i+1:])
+		}
+		oldName := func(t string) string { // name of the type before it was renamed (if it was)
+			if o, ok := typeRenamed[t]; ok {
+				return o
+			}
+			return t
+		}
+		for _, n := range scope.Names() {
+			tn, ok := scope.Lookup(n).(*types.TypeName)
+			if !ok || tn.IsAlias() {
+				continue
+			}
+			st, ok := tn.Type().Underlying().(*types.Struct)
+			if !ok || len(byType[oldName(n)]) == 0 {
+				continue
+			}
+			on := oldName(n)
+			var missing []string
+			for _, f := range byType[on] {
+				if _, ok := have[n+"."+f]; !ok && !token.IsExported(f) {
+					missing = append(missing, f)
+				}
+			}
+			sort.Strings(missing)
+			var unknownFields []*types.Var
+			for i := 0; i < st.NumFields(); i++ {
+				f := st.Field(i)
+				if _, known := KnownFields[on+"."+f.Name()]; !known && !f.Exported() && !f.Embedded() {
+					unknownFields = append(unknownFields, f)
+				}
+			}
+			for _, mf := range missing {
+				want := KnownFields[on+"."+mf]
+				comp := 0
+				for _, other := range missing {
+					if KnownFields[on+"."+other] == want {
+						comp++
+					}
+				}
+				var cands []*types.Var
+				for _, uf := range unknownFields {
+					if have[n+"."+uf.Name()] == want {
+						cands = append(cands, uf)
+					}
+				}
+				if comp == 1 && len(cands) == 1 {
+					rename[cands[0]] = mf
+					notes = append(notes, "renamed field "+n+"."+cands[0].Name()+" back to "+mf)
+				}
+			}
+		}
+	}
 	// functions and methods (receiver type taken after type renames)
 	type fdecl struct {
 		obj  *types.Func
@@ -323,6 +382,9 @@ func renameBack(dir string, known, knownTypes map[string]bool, env []string) (ma
 			if fn, isF := obj.(*types.Func); isF {
 				obj = fn.Origin()
 			}
+			if v, isV := obj.(*types.Var); isV && v.IsField() {
+				obj = v.Origin()
+			}
 			if nn, ok := rename[obj]; ok && obj != nil {
 				eds = append(eds, ed{pkg.Fset.Position(id.Pos()).Offset, id.Name, nn})
 			}
@@ -365,7 +427,33 @@ func Normalize(dir string, known map[string]bool, env []string) (map[string][]by
 			}
 		}
 	}
-	if len(unknown) == 0 && !unknownTypes {
+	unknownFields := false
+	if files, err := libFiles(dir); err == nil {
+		fset := token.NewFileSet()
+		for _, fn := range files {
+			f, err := parser.ParseFile(fset, fn, nil, parser.SkipObjectResolution)
+			if err != nil {
+				continue
+			}
+			ast.Inspect(f, func(n ast.Node) bool {
+				ts, ok := n.(*ast.TypeSpec)
+				if !ok {
+					return true
+				}
+				if st, ok := ts.Type.(*ast.StructType); ok && KnownTypes[ts.Name.Name] && st.Fields != nil {
+					for _, fld := range st.Fields.List {
+						for _, nm := range fld.Names {
+							if _, known := KnownFields[ts.Name.Name+"."+nm.Name]; !known {
+								unknownFields = true
+							}
+						}
+					}
+				}
+				return true
+			})
+		}
+	}
+	if len(unknown) == 0 && !unknownTypes && !unknownFields {
 		return nil, nil, nil
 	}
 	overlay := map[string][]byte{}
@@ -549,7 +637,7 @@ func Normalize(dir string, known map[string]bool, env []string) (map[string][]by
 		notes = append(notes, ns...)
 	}
 	// local variables of unknown struct types that only bundle values: one variable per field
-	if unknownTypes && os.Getenv("BB_NOSRA") == "" {
+	if (unknownTypes || len(overlay) > 0) && os.Getenv("BB_NOSRA") == "" {
 		tried := map[string]bool{}
 		for iter := 0; iter < 40; iter++ {
 			cfg := &packages.Config{
@@ -570,7 +658,38 @@ func Normalize(dir string, known map[string]bool, env []string) (map[string][]by
 				b, _ := os.ReadFile(fname)
 				return b
 			}
-			fn, out, note := scalarReplace(pkgs[0], KnownTypes, content, tried)
+			fn, out, note := foldConstIf(pkgs[0], content)
+			if fn == "" {
+				fn, out, note = scalarReplace(pkgs[0], KnownTypes, content, tried)
+			}
+			if fn == "" && unknownTypes {
+				// several files at once
+				if tname, outs, note2 := unNewtype(pkgs[0], KnownTypes, content, tried); tname != "" {
+					prevs := map[string][]byte{}
+					hads := map[string]bool{}
+					for f2, b := range outs {
+						prevs[f2], hads[f2] = overlay[f2], false
+						if _, ok := overlay[f2]; ok {
+							hads[f2] = true
+						}
+						overlay[f2] = b
+					}
+					cfg.Overlay = overlay
+					if chk, err := packages.Load(cfg, "."); err != nil || len(chk) != 1 || len(chk[0].Errors) > 0 {
+						for f2 := range outs {
+							if hads[f2] {
+								overlay[f2] = prevs[f2]
+							} else {
+								delete(overlay, f2)
+							}
+						}
+						notes = append(notes, "not applied (does not type-check): "+note2)
+					} else {
+						notes = append(notes, note2)
+					}
+					continue
+				}
+			}
 			if fn == "" {
 				break
 			}
@@ -594,4 +713,38 @@ func Normalize(dir string, known map[string]bool, env []string) (map[string][]by
 		return nil, notes, nil
 	}
 	return overlay, notes, nil
+}
+
+// Fields returns "Type.field" -> type string for every field of every named struct type of the library (type-checked;
+// generic types with their own parameter names).
+func Fields(dir string, env []string, overlay map[string][]byte) (map[string]string, error) {
+	cfg := &packages.Config{
+		Mode: packages.NeedName | packages.NeedFiles | packages.NeedSyntax | packages.NeedTypes | packages.NeedTypesInfo | packages.NeedImports | packages.NeedDeps | packages.NeedCompiledGoFiles,
+		Dir:  dir, Env: env, Tests: false, Overlay: overlay,
+	}
+	pkgs, err := packages.Load(cfg, ".")
+	if err != nil || len(pkgs) != 1 {
+		return nil, fmt.Errorf("load failed")
+	}
+	return fieldsOf(pkgs[0]), nil
+}
+
+func fieldsOf(pkg *packages.Package) map[string]string {
+	out := map[string]string{}
+	scope := pkg.Types.Scope()
+	for _, n := range scope.Names() {
+		tn, ok := scope.Lookup(n).(*types.TypeName)
+		if !ok || tn.IsAlias() {
+			continue
+		}
+		st, ok := tn.Type().Underlying().(*types.Struct)
+		if !ok {
+			continue
+		}
+		for i := 0; i < st.NumFields(); i++ {
+			f := st.Field(i)
+			out[n+"."+f.Name()] = types.TypeString(f.Type(), func(p *types.Package) string { return p.Name() })
+		}
+	}
+	return out
 }
